@@ -721,6 +721,13 @@ orc_compiler_check_sizes (OrcCompiler *compiler)
 
     for(j=0;j<ORC_STATIC_OPCODE_N_DEST;j++){
       if (opcode->dest_size[j] == 0) continue;
+      if (multiplier * opcode->dest_size[j] > ORC_MAX_VAR_SIZE) {
+        ORC_COMPILER_ERROR (compiler, "opcode %s with x%d prefix needs a %d byte "
+            "operand, the maximum is %d", opcode->name, multiplier,
+            multiplier * opcode->dest_size[j], ORC_MAX_VAR_SIZE);
+        compiler->result = ORC_COMPILE_RESULT_UNKNOWN_PARSE;
+        return;
+      }
       if (multiplier * opcode->dest_size[j] !=
           compiler->vars[insn->dest_args[j]].size) {
         ORC_COMPILER_ERROR (compiler, "size mismatch, opcode %s dest[%d] is %d should be %d",
@@ -733,6 +740,14 @@ orc_compiler_check_sizes (OrcCompiler *compiler)
     }
     for(j=0;j<ORC_STATIC_OPCODE_N_SRC;j++){
       if (opcode->src_size[j] == 0) continue;
+      if (multiplier * opcode->src_size[j] > ORC_MAX_VAR_SIZE &&
+          !(opcode->flags & ORC_STATIC_OPCODE_SCALAR && j >= 1)) {
+        ORC_COMPILER_ERROR (compiler, "opcode %s with x%d prefix needs a %d byte "
+            "operand, the maximum is %d", opcode->name, multiplier,
+            multiplier * opcode->src_size[j], ORC_MAX_VAR_SIZE);
+        compiler->result = ORC_COMPILE_RESULT_UNKNOWN_PARSE;
+        return;
+      }
       if (multiplier * opcode->src_size[j] !=
           compiler->vars[insn->src_args[j]].size &&
           compiler->vars[insn->src_args[j]].vartype != ORC_VAR_TYPE_PARAM &&
